@@ -61,7 +61,7 @@ VEC = [(1, 0), (1, 1), (0, 1), (-1, 0), (-1, -1), (0, -1)]  # link 0..5
 def plan(tier):
     n = QUICK_MAX if tier == "quick" else THOROUGH_MAX
     return [("torus", n * n), ("mesh", 4 if tier == "quick" else 16),
-            ("hexagon", 26 if tier == "quick" else 50), ("links", 1),
+            ("hexagon", 26 if tier == "quick" else 104), ("links", 1),
             ("large", 24 if tier == "quick" else 400)]
 
 
@@ -90,6 +90,11 @@ def gen(cls, idx, rng, tier):
                     h=rng.choice([rng.randint(49, 300),
                                   rng.randint(300, 5000), 3, 256, 65535]),
                     seed=rng.randrange(1 << 30))
+    if cls == "hexagon" and idx % 13 == 12:
+        # radii beyond every small-number special case of the interpreter
+        return dict(kind="hexagon", r=[256, 257, 300, 1000][idx // 13 % 4],
+                    abandon=0, big=True,
+                    start=(rng.randint(-20, 20), rng.randint(-20, 20)))
     if cls == "hexagon":
         return dict(kind="hexagon", r=idx // 2, abandon=idx % 2,
                     start=(rng.randint(-20, 20), rng.randint(-20, 20)))
@@ -367,6 +372,20 @@ def check_mesh_pair(ctx, g, ru, Links, a, b, dx, dy, dist, walk=True):
 def run_hexagon(case, ctx, g):
     r = case["r"]
     sx, sy = case["start"]
+    if case.get("big"):
+        import itertools
+        n = 3 * r * (r + 1) + 1
+        pts = list(itertools.islice(g.concentric_hexagons(r, (sx, sy)), n + 7))
+        ctx.hit("hexagon_large_radius")
+        check(len(pts) == n, "hexagon-count",
+              "radius %d: %s%d points, the hexagon has %d" %
+              (r, "at least " if len(pts) > n else "", len(pts), n), r=r)
+        check(len(set(map(tuple, pts))) == n, "hexagon-duplicate", "", r=r)
+        ds = [hexdist(x - sx, y - sy) for x, y in pts]
+        check(ds == sorted(ds) and ds[-1] == r, "hexagon-order",
+              "rings not nearest first / last ring at %d" % ds[-1], r=r)
+        ctx.mark_nontrivial()
+        return "ok"
     # usage history first: searches that stop at the first hit abandon the
     # generator part-way, and two searches may be in progress at once
     import itertools
